@@ -346,7 +346,7 @@ func genFormats(r *runner, rng *hx.Rng, thorough bool) {
 		func(id int) Cred { return Cred{ID: id, Issuer: 50, Subject: 60, Types: []int{1}, JWT: 2} },
 	}
 
-	rounds := 2
+	rounds := 5
 	if thorough {
 		rounds = 8
 	}
@@ -459,7 +459,7 @@ func randSReq(rng *hx.Rng, depth int, ngroups int) SReq {
 
 // genRandom: everything mixed.
 func genRandom(r *runner, rng *hx.Rng, thorough bool) {
-	n := 700
+	n := 1600
 	if thorough {
 		n = 6000
 	}
